@@ -116,7 +116,7 @@ class TapExecutor(Executor):
         return getattr(self._d, k)
 
 
-TAG_IDS = {"tap": 0, "manual": 0, "input": 0, "tap1": 1, "tap2": 2, "tap3": 3}
+TAG_IDS = {"tap": 0, "manual": 0, "input": 0, "tap1": 1, "tap2": 2, "tap3": 3, "inner": 8}
 
 
 def tap_cancel(fut, fid, tag, k=-1):
